@@ -1,6 +1,6 @@
 #!/bin/sh
 # Offline setup: nothing is downloaded. Pre-builds the harness once (checks rebuild it from /repo on every run)
-# and parses every specification module.
+# and parses every specification module with SANY.
 set -e
 cd "$(dirname "$0")"
 export GOFLAGS=-mod=mod GOPROXY=off GOSUMDB=off GOTOOLCHAIN=local
@@ -8,8 +8,6 @@ cp /repo/go.sum harness/go.sum
 (cd harness && go build -tags verif -o /dev/null ./cmd/drive)
 T=$(mktemp -d)
 cp spec/*.tla "$T"/
-(cd "$T" && for m in Ops OpsMC; do
-  java -cp /opt/veriftools/tla/tla2tools.jar:/opt/veriftools/tla/CommunityModules-deps.jar tla2sany.SANY "$m.tla" >/dev/null || { echo "SANY failed on $m"; exit 1; }
-done)
+(cd "$T" && java -cp /opt/veriftools/tla/tla2tools.jar:/opt/veriftools/tla/CommunityModules-deps.jar tla2sany.SANY *.tla >sany.log 2>&1 || { grep -B2 -A8 -i "error" sany.log | head -40; echo "SANY failed"; exit 1; })
 rm -rf "$T"
 echo setup ok
